@@ -87,7 +87,8 @@ void h_negttl(void)
 void h_set(void)
 {
   ExpiringCache c; uint64_t key = nondet_u64(), value = nondet_u64(); iora_secs ttl = nondet_i64();
-  GKEY = nondet_u64(); G_now = nondet_i64(); IORA_TRUE = 1;
+  c._cache.has = nondet_bool(); c._evictionCallback = nondet_bool();     /* _Bool fields: explicit 0/1 */
+  GKEY = nondet_u64(); G_now = nondet_i64(); IORA_TRUE = 1; G_evictions = 0;
   __CPROVER_assume(TIME_OK(G_now) && TTL_OK(ttl) && TTL_OK(c._ttl));
   const iora_tmap before = c._cache;
   ExpiringCache_set(&c, key, value, ttl);
@@ -101,6 +102,7 @@ void h_set(void)
 void h_get(void)
 {
   ExpiringCache c; uint64_t key = nondet_u64(); uint64_t out = nondet_u64();
+  c._cache.has = nondet_bool(); c._evictionCallback = nondet_bool();     /* _Bool fields: explicit 0/1 */
   GKEY = nondet_u64(); G_now = nondet_i64(); IORA_TRUE = 1; G_evictions = 0;
   const iora_tmap before = c._cache; const uint64_t out0 = out;
   bool hit = ExpiringCache_get(&c, key, &out);
@@ -120,7 +122,8 @@ void h_get(void)
 void h_set_get(void)
 {
   ExpiringCache c; uint64_t key = nondet_u64(), value = nondet_u64(); iora_secs ttl = nondet_i64(); uint64_t out = 0;
-  GKEY = key; G_now = nondet_i64(); IORA_TRUE = 1;
+  c._cache.has = nondet_bool(); c._evictionCallback = nondet_bool();     /* _Bool fields: explicit 0/1 */
+  GKEY = key; G_now = nondet_i64(); IORA_TRUE = 1; G_evictions = 0;
   __CPROVER_assume(TIME_OK(G_now) && ttl > 0 && TTL_OK(ttl) && TTL_OK(c._ttl));
   const int64_t t0 = G_now;
   ExpiringCache_set(&c, key, value, ttl);
@@ -179,7 +182,7 @@ void h_search(void)
   DnsResult res = { {&rec, 1}, {0,0},{0,0},{0,0},{0,0},{0,0},{0,0},{0,0},{0,0},{0,0},{0,0},{0,0} };
   ExpiringCache ec = { {false, {0, 0}}, 300, false };
   DnsCache dc = { 300, &ec };
-  IORA_TRUE = 1; GKEY = 7; G_now = 0; G_result_id = 42; GSEC = 0; GI = 0; G_wv = true; G_wttl = IN_TTL; G_empty = false; G_single = true;
+  IORA_TRUE = 1; GKEY = 7; G_now = 0; G_result_id = 42; GSEC = 0; GI = 0; G_wv = true; G_wttl = IN_TTL; G_empty = false; G_single = true; G_evictions = 0;
   DnsCache_put_core(&dc, 7, &res);
   G_now = IN_DT;
   uint64_t out = 0;
